@@ -679,6 +679,20 @@ def r07_4(rep: Report, idx: Index) -> None:
             else:
                 rep.fail(rid, construct, label,
                          f'{fn.name} does not honour `{label}` like its sibling generator', fn)
+        # the only reasons to leave a value out of the URL: usage mask, exclude set, equal to the
+        # default, or a nested container handled by the sibling generator
+        accepted = ('opt.usage & use', ' in exclude', '== dft_val', 'isinstance(value, OptionsContainer)')
+        skips = [n for n in ast.walk(fn) if isinstance(n, ast.Continue)]
+        for c in skips:
+            g = next((x for x in ancestors(c) if isinstance(x, ast.If)), None)
+            gt = norm(g.test) if g is not None else '(unconditional)'
+            if any(k in gt for k in accepted):
+                rep.ok(rid, construct, f'skip under `{gt[:50]}`')
+            else:
+                rep.fail(rid, construct, f'skip under `{gt[:50]}`',
+                         f'{fn.name} leaves an option out of the generated parameters when `{gt[:80]}`: '
+                         'the manifest is built with the requested value but the media URLs fall back '
+                         'to the stream default (e.g. an option explicitly set back to none)', c)
     # media parameter sets are generated with the matching usage
     mc = idx.functions.get(
         'dashlive.server.requesthandler.manifest_context.ManifestContext.calculate_cgi_parameters')
@@ -725,6 +739,27 @@ def r07_4(rep: Report, idx: Index) -> None:
                      f'(calls: {calls})', cp.node)
 
 
+def r07_5(rep: Report) -> None:
+    """option parsers: a value assigned for some list items only must not be read for the next"""
+    from ..idioms import partial_defs_in_loops
+    n_loops = 0
+    for rel in rep.repo.py_files('dashlive/server/options'):
+        tree = rep.repo.tree(rel)
+        for fn in [n for n in ast.walk(tree) if isinstance(n, (ast.FunctionDef, ast.AsyncFunctionDef))]:
+            loops, found = partial_defs_in_loops(fn)
+            if not loops:
+                continue
+            n_loops += loops
+            construct = f'{rel}::{fn.name}'
+            if not found:
+                rep.ok('R07.5', construct, 'per-item state', f'{loops} loop(s)')
+            for loop, var, use in found:
+                rep.fail('R07.5', construct, f'per-item state:{var}',
+                         f'`{var}` is assigned on some paths of one loop iteration only and read at '
+                         f'line {use.lineno}: the value of the previous item leaks into this one', use)
+    rep.extra['option_module_loops'] = n_loops
+
+
 def analyse(rep: Report) -> None:
     rep.explanation = (
         'Static reconstruction of the option registry (all DashOption constructions, the error '
@@ -739,6 +774,7 @@ def analyse(rep: Report) -> None:
     rep.rule('R07.3', 'resolved start and depth are stored before URL parameters are computed', floor=3)
     rep.rule('R07.4', 'usage mask / exclude / defaults agree between the parameter generators and the '
                       'sets reach the matching media type', floor=18)
+    rep.rule('R07.5', 'option parsers keep no state between the items of a list value', floor=3)
     idx = Index(rep.repo)
     cg = CallGraph(idx)
     opts = read_registry(rep, idx)
@@ -750,3 +786,4 @@ def analyse(rep: Report) -> None:
     r07_2(rep, idx, cg, opts)
     r07_3(rep, idx)
     r07_4(rep, idx)
+    r07_5(rep)
